@@ -115,6 +115,17 @@ def run(ctx):
         uses = ['write(kb); write(kb.length);', 'write(ks); write(ks.length);', 'for (int i = 0; i < ki.length; i += 1) { write(ki[i]); write(\',\'); }']
         src = '\n'.join(parts[i] for i in order) + '\nempty @is_you() { ' + ' '.join(uses[i] for i in order) + ' ' + ' '.join(uses[i] for i in reversed(order)) + ' }'
         jobs.append(('eqs%s' % ''.join(map(str, order)), src, [], 2, 200, False, 400000))
+    # tables that are all zero / all equal (an emitter may abbreviate them), each followed by a table that is not
+    for w in ((2, 3) if ctx.quick else (2, 3, 4, 8)):
+        for n in (1, 2, 4, 9):
+            for fill in ('0', '7'):
+                z = '[' + ', '.join([fill] * n) + ']'
+                zb = '[' + ', '.join(['false' if fill == '0' else 'true'] * n) + ']'
+                src = ('const int[] ZI = %s; const int[] PI = [2, 3, 5, 7]; const byte[] ZB = %s; const byte[] PB = [9, 8]; const bool[] ZT = %s; int[] MZ = %s; int[] MP = [4, 4];\n'
+                       'empty di(const int[] a) { for (int i = 0; i < a.length; i += 1) { write(a[i]); write(\',\'); } write(\';\'); }\n'
+                       'empty @is_you() { const int[] one = %s; di(ZI); di(PI); write(ZB); write(PB); write(ZT[0]); write(ZT.length); di(MZ); di(MP); di(one); MZ[0] = 3; di(MZ); di(MP); }'
+                       % (z, z, zb, z, z))
+                jobs.append(('zero_w%d_n%d_%s' % (w, n, fill), src, [], w, 200, False, 300000))
     # string constants reached through computed addresses, with index expressions that need the same scratch registers
     import gen_special
     jobs += [('si%d' % i, src, a, 2, 200, False, 300000) for i, (src, a, tag) in enumerate(gen_special.order_programs(ctx.rng)) if tag.startswith('string_index')]
